@@ -29,7 +29,9 @@ BOUNDS = {
 }
 OUTSIDE = ['the byte layout of the HTTP2-Settings token (SettingsFrame.serialize_body / '
            'parse_body + base64url are an identity on the settings mapping: validated on '
-           'boundary values with the real functions at every run)']
+           'boundary values with the real functions at every run, and - shard '
+           'handover/token-alphabet - through h2\'s real upgrade path for every base64 symbol at '
+           'five token positions; that shard is a native loop, not a solver query)']
 ASSUMPTIONS = ['SettingsBlob model: serialize_body -> urlsafe_b64encode -> urlsafe_b64decode -> '
                'parse_body is the identity on {id: value} for ids < 2^16 and values < 2^32']
 
@@ -207,6 +209,34 @@ def h_invalid_header_settings():
     return h
 
 
+def h_token_alphabet():
+    """SettingsBlob contract, checked through h2's REAL upgrade path (the base64url codec is
+    C code the symbolic engine cannot enter, so the symbolic shards carry the settings mapping
+    through it unchanged): for each of the 64 base64 symbols, a client setting whose coding
+    puts that symbol at five token positions must reach the server unchanged"""
+    def h():
+        bad = None
+        with h2h.native():
+            for x in range(64):
+                v = (x << 24) | (x << 18) | (x << 12) | (x << 6) | x
+                for code in (3, 6):
+                    c = h2h.conn(True)
+                    c.local_settings = h2.settings.Settings(client=True,
+                                                            initial_values={code: v})
+                    s = h2h.conn(False)
+                    try:
+                        token = c.initiate_upgrade_connection()
+                        s.initiate_upgrade_connection(token)
+                        got = s.remote_settings.get(code)
+                    except Exception as e:      # noqa
+                        got = 'raised %s' % type(e).__name__
+                    if got != v and bad is None:
+                        bad = (code, v, got, token)
+        note('checked')
+        check(bad is None, 'server-view-differs:token-alphabet', bad)
+    return h
+
+
 def _upgraded_pair():
     c = h2h.conn(True)
     s = h2h.conn(False)
@@ -304,7 +334,8 @@ def h_stream_one():
 
 
 def shards(tier, seed):
-    return [Shard('handover/invalid-header-settings', h_invalid_header_settings(),
+    return [Shard('handover/token-alphabet', h_token_alphabet(), expect=['checked']),
+            Shard('handover/invalid-header-settings', h_invalid_header_settings(),
                   expect=['refused', 'upgraded']),
             Shard('handover/symbolic-settings', h_settings_handover(True), budget=120,
                   expect=['upgraded']),
